@@ -30,6 +30,8 @@ class ScriptedTransport(AbstractMessagingTransport):
         self.closed = 0
         self.fail_sends = False
         self.failed_attempts = 0   # send_frame calls made while the write side is broken
+        self._raw = asyncio.Queue()      # harness items not yet turned into frames
+        self._parsed = []
         self.name = name
         self.on_sent = None
         self.on_pull = None
@@ -73,40 +75,44 @@ class ScriptedTransport(AbstractMessagingTransport):
 
     # -- incoming ------------------------------------------------------------------------------
     def deliver(self, item):
-        self._incoming_frame_queue.put_nowait(item)
+        self._raw.put_nowait(item)
 
     async def next_frame_generator(self):
-        item = await self._incoming_frame_queue.get()
-        if item is EOF_MARK:
-            if self.on_pull:
-                self.on_pull('LOST', None)
-            return None
-        if isinstance(item, Exception):
-            if self.on_pull:
-                self.on_pull('LOST', None)
-            raise item
-        tag = None
-        if isinstance(item, tuple):
-            tag, item = item
-        if isinstance(item, (bytes, bytearray)):
-            parser, on_pull = self._frame_parser, self.on_pull
+        """Harness items are taken from `_raw`; every frame (or invalid-frame marker, or transport exception) they stand for is then handed
+        to the receiver the way every message transport of the library does it: put on `_incoming_frame_queue` and fetched through the
+        *inherited* `AbstractMessagingTransport.next_frame_generator`."""
+        if not self._parsed:
+            item = await self._raw.get()
+            if item is EOF_MARK:
+                if self.on_pull:
+                    self.on_pull('LOST', None)
+                return None
+            if isinstance(item, Exception):
+                if self.on_pull:
+                    self.on_pull('LOST', None)
+                self._incoming_frame_queue.put_nowait(item)
+                return await super().next_frame_generator()
+            tag = None
+            if isinstance(item, tuple):
+                tag, item = item
+            if isinstance(item, (bytes, bytearray)):
+                frames = [fr async for fr in self._frame_parser.receive_data(bytes(item), 0)]
+                if not frames:
+                    if self.on_pull:
+                        self.on_pull(tag, None)      # the message produced no frame at all (ignored)
 
-            async def pgen():
-                n = 0
-                async for fr in parser.receive_data(bytes(item), 0):
-                    n += 1
-                    if on_pull:
-                        on_pull(tag, fr)
-                    yield fr
-                if n == 0 and on_pull:
-                    on_pull(tag, None)      # the message produced no frame at all (ignored)
-            return pgen()
-
-        async def gen():
-            if self.on_pull:
-                self.on_pull(tag, item)
-            yield item
-        return gen()
+                    async def nothing():
+                        return
+                        yield
+                    return nothing()
+                self._parsed.extend((tag, fr) for fr in frames)
+            else:
+                self._parsed.append((tag, item))
+        tag, fr = self._parsed.pop(0)
+        if self.on_pull:
+            self.on_pull(tag, fr)
+        self._incoming_frame_queue.put_nowait(fr)
+        return await super().next_frame_generator()
 
     async def connect(self):
         for _ in range(self.connect_ticks):
